@@ -376,3 +376,25 @@ def _r_shacl_rdf(f):
         return False
     except Exception:
         return True
+
+
+# ------------------------------------------------------------------ C05: duplicate labels
+@trigger("duplicate_label_same_local_name")
+def _t_dup_label(f, obs):
+    if obs.get("kind") != "duplicate_label":
+        return False
+    g, cfg = obs["triples"], obs["cfg"]
+    classes = set(o[1] for s, p, o in g if p == cfg['inst_prop'] and o[0] in 'IB')
+    if cfg['target_mode'] == 'classes':
+        classes |= set(cfg['targets'])
+    locs = [_oracle.shape_label(c, "") for c in classes]
+    return len(locs) != len(set(locs))
+
+
+@replayer("duplicate_label_same_local_name")
+def _r_dup_label(f):
+    import common
+    from shexer.shaper import Shaper
+    nt = "".join(l + " .\n" for l in [_e('a') + " " + _T + " " + _e('C'), _e('b') + " " + _T + " <http://other.org/ns#C>"])
+    out = Shaper(raw_graph=nt, all_classes_mode=True).shex_graph(string_output=True)
+    return out.count("\n:C") >= 2
